@@ -68,11 +68,12 @@ IndexEntry == RQ(Ev.op = "index" /\ ni < Len(R)
               /\ ni' = ni + 1 /\ UNCHANGED ny
 IndexLen == RQ(Ev.op = "indexlen" /\ Ev.n = Len(R) /\ ni = Len(R)) /\ UNCHANGED <<ny, ni>>
 
-ReadInside(rd, e) == rd[1] >= e.lo /\ rd[1] + rd[2] <= e.hi
 Get == RQ(Ev.op = "get" /\ Ev.k \in 1..Len(R) /\ Ev.off >= 0
           /\ Ev.ranges = GetAbs(R[Ev.k].len, Ev.off, Ev.len)
           /\ Ev.kind = R[Ev.k].kind /\ Ev.type = R[Ev.k].type
-          /\ \A j \in 1..Len(Ev.reads) : ReadInside(Ev.reads[j], rext[Ev.k]))
+          \* locality: the visible records holding a record are contiguous, so every read lies inside them iff
+          \* the lowest position read and the highest end of a read do (rlo = rhi = -1: nothing was read)
+          /\ (Ev.rlo >= 0 => Ev.rlo >= rext[Ev.k].lo /\ Ev.rhi <= rext[Ev.k].hi))
        /\ UNCHANGED <<ny, ni>>
 
 Done == ~More /\ UNCHANGED <<phase, idx, rext, ny, ni, fvars>>
